@@ -30,6 +30,30 @@ INFO = {
     "C17-a2": ("C17", "maybe_changed_after_cold loads the memo before claiming the query",
                "another thread completes the dependency between the load and the claim: the stale memo is verified, found changed and executed a second time in the revision",
                ["C17"]),
+    "C16-a2": ("C16", "interned maybe_changed_after checks the slot generation before taking the shard lock and takes the lock only to pin the value",
+               "a stale LOW-durability interned value whose memo is revalidated by one reader while another reader recycles the slot for a new value (generation check, recycling, pin)",
+               ["C16", "C08"]),
+    "C18-a2": ("C18", "execute_maybe_iterate no longer resets the claim guard's release mode: a re-claimed transferred inner query that completes on its own stays transferred",
+               "conditional nested cycle whose inner function drops out of the outer cycle in a later iteration while another thread is blocked on it from inside its own query",
+               ["C18"]),
+    "C19-a2": ("C19", "transfer_lock computes thread_changed from the thread stored at the previous hand-over instead of assuming true",
+               "two hand-overs of one query with a hand-over of its first owner to another thread in between, a change of the cycle structure between iterations, and the new owner thread already waiting for the query",
+               []),
+    "C20-a2": ("C20", "fetch_cold_cycle's poisoned-memo check loses the verified_at == current revision conjunct (same line as C14-a1)",
+               "a reader cancelled by a pending write inside a cycle head's execution; the head is re-queried in the next revision and answers PropagatedPanic",
+               ["C20"]),
+    "C21-a2": ("C21", "the attach guards call uncancel() only while unwinding",
+               "a cancel() that arrives during a computation but is never delivered (after the last tracked call, or deferred inside a fixpoint query), then another request on the same handle",
+               ["C21"]),
+    "C22-a2": ("C22", "diff_outputs is moved before the backdating PartialEq comparison in execute",
+               "a panic in the PartialEq of a function's result during a re-execution that creates fewer tracked structs than before; the retry in the same revision panics on the double delete",
+               ["C22"]),
+    "C23-a2": ("C23", "delete_entity pushes the id on the free list before clearing the struct's memos",
+               "thread A discards a struct with memos while thread B creates a struct of the same type and memoizes a function on it (between the push and the end of clear_memos)",
+               ["C23", "C17", "C16"]),
+    "C24-a2": ("C24", "record_unfilled_pages iterates instead of draining and into_zalsa_handle lets the storage drop: pages are handed back twice",
+               "a handle converted with into_zalsa_handle after it allocated, then two handles allocating concurrently from the page that is listed twice",
+               ["C24"]),
 }
 
 
@@ -55,6 +79,8 @@ def main():
             "checked_with": [f"git -C /repo apply seeded/{mid}/patch.diff; ./vcheck {p} quick; git -C /repo checkout -- ." for p in detected],
             "detected_by": detected,
         }
+        if not detected:
+            meta["not_detected"] = "not caught by the quick tier; see DESIGN.md 14.4"
         json.dump(meta, open(os.path.join(d, "meta.json"), "w"), indent=1)
         print("wrote", mid, "ok" if res.get("ok") else "NOT CONFIRMED")
 
